@@ -258,4 +258,33 @@ def updateByField (th : Thermal) (a : List Block) (keysOf : Nat → List Key) (g
         | some T => go ((keysOf ib).foldl (fun th k => updateComponentTemp th k T) th) (ib + 1) rest
     go { th with ref := [] } 0 a
 
+
+/-! ### compositions that several components share (`c2.p.numberDensities = c1.p.numberDensities`)
+
+A component refers to a composition cell; several components may refer to the SAME cell (direct assignment
+of the parameter value, `copyParamsFrom` / `updateParamsFrom`). -/
+
+/-- the cell contents (density of the representative nuclide; all nuclides of a cell are scaled alike) -/
+abbrev Heap := List Rat
+
+def deref (heap : Heap) (cell : Nat) : Rat := heap.getD cell 0
+
+/-- `Component.changeNDensByFactor(factor)` for component `i`: a NEW dict `{nuc: dens * factor}` is built from the
+one the component refers to and assigned to the component; the old dict (and whoever else refers to it) is left
+as it was -/
+def changeNDens (heap : Heap) (cells : List Nat) (i : Nat) (f : Rat) : Heap × List Nat :=
+  (heap ++ [deref heap (cells.getD i 0) * f], cells.set i heap.length)
+
+/-- the density updates of one expansion: component `i, i+1, ...` get the factors `fs` in turn -/
+def changeAll : Heap → List Nat → Nat → List Rat → Heap × List Nat
+  | heap, cells, _, [] => (heap, cells)
+  | heap, cells, i, f :: fs =>
+    let r := changeNDens heap cells i f
+    changeAll r.1 r.2 (i + 1) fs
+
+/-- the density every component sees afterwards -/
+def densitiesAfter (heap : Heap) (cells : List Nat) (fs : List Rat) : List Rat :=
+  let r := changeAll heap cells 0 fs
+  r.2.map (deref r.1)
+
 end ArmiVerif.AxialExp
